@@ -134,12 +134,13 @@ Definition io := (fs * list mut)%type.
 Definition emit (m : mut) (w : io) : io := (apply_mut (fst w) m, snd w ++ [m]).
 
 (* ---------- fs_log.go / fs_log_file.go ---------- *)
-(* fx_tsync: the proposed repair F25, an fsync after the ftruncate of logFile.Truncate; [repaired] is the code as
-   it stands after the F1/F2 fixes (no such fsync), [repaired_ts] has it *)
+(* fx_tsync: the repair F25 (09d27e0), an fsync after the ftruncate of logFile.Truncate. [repaired] is the code as it
+   stands (all four repairs); [repaired_nots] is the code before 09d27e0 (F1/F2 repaired, no fsync after ftruncate),
+   kept for the regression witness of F25 *)
 Record fixes := mkFx { fx_drop : bool; fx_ro : bool; fx_guard : bool; fx_tsync : bool }.
 Definition unfixed := mkFx false false false false.
-Definition repaired := mkFx true true true false.
-Definition repaired_ts := mkFx true true true true.
+Definition repaired := mkFx true true true true.
+Definition repaired_nots := mkFx true true true false.
 
 Record finfo := mkFi { fi_seq : N; fi_first : N }.
 Record curfile := mkCf { cf_seq : N; cf_empty : bool; cf_first : N; cf_last : N }.
